@@ -91,6 +91,7 @@ func (b *Batcher[K, T]) subscribe(ctx context.Context, ch chan<- T) {
 	b.wg.Add(1)
 	go func() {
 		defer func() {
+			verifPoint("fwd.exit")
 			b.lock.Lock()
 			close(ch)
 			for i, eventCh := range b.eventChs {
@@ -127,6 +128,7 @@ func (b *Batcher[K, T]) execute(i *item[K, T]) {
 		return
 	}
 	for _, ev := range b.eventChs {
+		verifPoint("fanout.send")
 		select {
 		case ev.ch <- i.value:
 		case <-b.closeCh:
